@@ -6,6 +6,7 @@ import (
 	"math"
 	"math/rand/v2"
 	"runtime"
+	"slices"
 	"sync/atomic"
 	"time"
 
@@ -145,6 +146,13 @@ func (v *IndexVamana) insertUpdateDelete(ctx context.Context, pointQueue <-chan 
 	updatedPoints := make([]IndexVectorChange, 0)
 	deletedPointsIds := make([]uint64, 0)
 	toRemoveInBoundNodeIds := make(map[uint64]struct{})
+	/* A batch may name the same point more than once, e.g. an update request
+	 * that sets the vector and then removes it. The last change of a point
+	 * wins: it is filed under exactly one of updated or deleted. We also
+	 * remember the points handed to the insert workers in this batch so that a
+	 * later change of the same point does not depend on whether a worker has
+	 * already stored its vector. */
+	insertedIds := make(map[uint64]struct{})
 	// ---------------------------
 	insertQ, distributeErrC := utils.TransformWithContext(ctx, pointQueue, func(point IndexVectorChange) (out IndexVectorChange, skip bool, err error) {
 		if point.Id == STARTID {
@@ -156,7 +164,13 @@ func (v *IndexVamana) insertUpdateDelete(ctx context.Context, pointQueue <-chan 
 			return
 		}
 		// What operation is this?
-		exists := v.vecStore.Exists(point.Id)
+		_, insertedHere := insertedIds[point.Id]
+		exists := insertedHere || v.vecStore.Exists(point.Id)
+		if _, seen := toRemoveInBoundNodeIds[point.Id]; seen {
+			// Named again in this batch, forget what we filed it under before
+			updatedPoints = slices.DeleteFunc(updatedPoints, func(p IndexVectorChange) bool { return p.Id == point.Id })
+			deletedPointsIds = slices.DeleteFunc(deletedPointsIds, func(id uint64) bool { return id == point.Id })
+		}
 		switch {
 		case !exists && point.Vector == nil:
 			// Skip, nothing to do
@@ -166,6 +180,7 @@ func (v *IndexVamana) insertUpdateDelete(ctx context.Context, pointQueue <-chan 
 			if point.Id > v.maxNodeId.Load() {
 				v.maxNodeId.Store(point.Id)
 			}
+			insertedIds[point.Id] = struct{}{}
 			skip = false
 			out = point
 		case exists && point.Vector != nil:
